@@ -12,8 +12,8 @@
 
 namespace yaclib::detail {
 
-constexpr std::cv_status CVStatusFrom(WaitStatus);
-constexpr std::cv_status CVStatusFrom(std::cv_status);
+std::cv_status CVStatusFrom(WaitStatus);
+std::cv_status CVStatusFrom(std::cv_status);
 
 // TODO(myannyax) unite with ConditionVariableAny
 
